@@ -44,11 +44,13 @@ class Grid:
 
         self.ds = Dataset(os.path.join(d, "grid.nc"))
         self.v = {}
+        self.missing = set()      # variables asked for that the file does not have
         self._eq = None
 
     def var(self, name):
         if name not in self.v:
             if name not in self.ds.variables:
+                self.missing.add(name)
                 return None
             self.v[name] = np.array(self.ds.variables[name][...], dtype=float) if getattr(self.ds.variables[name].dtype, "kind", "S") in "fiu" else self.ds.variables[name][...]
         return self.v[name]
@@ -200,6 +202,42 @@ OBS = {"C01": obs_C01, "C12": obs_C12}
 OBS_PAIR = {}
 
 
+# variables whose absence the observation functions handle themselves
+OPTIONAL_VARS = {"closed_wall_R", "closed_wall_Z", "pressure", "psi_axis", "psi_bdry"}
+
+
+def _has_none(o):
+    if o is None:
+        return True
+    if isinstance(o, dict):
+        return any(_has_none(v) for v in o.values())
+    if isinstance(o, (list, tuple)):
+        return any(_has_none(v) for v in o)
+    return False
+
+
+def observe(fn, header, prop, grids):
+    """run an observation function; a variable the file lacks is an observation (clause Present_<prop>), not a crash"""
+    out = dict(header)
+    out["prop"] = prop
+    try:
+        fn(out)
+        # (a missing array may also have been quantised to a scalar NaN code: any required variable that is absent counts)
+        bad = _has_none(out) or any(g.missing - OPTIONAL_VARS for g in grids)
+    except Exception:
+        bad = True
+        if not any(g.missing - OPTIONAL_VARS for g in grids):
+            raise
+    if bad:
+        miss = sorted(set().union(*[g.missing - OPTIONAL_VARS for g in grids]))
+        if not miss:
+            raise RuntimeError("observation %s has empty values although no variable is missing" % prop)
+        out = dict(header)
+        out["prop"] = prop
+        out["missing"] = miss
+    return out
+
+
 def main():
     d = sys.argv[1]
     props = sys.argv[2:]
@@ -209,17 +247,14 @@ def main():
     if len(props) >= 2 and props[1] == "--pair":
         # project.py <dirA> <prop> --pair <dirB> <kind> <outfile>
         gB = Grid(props[2])
-        out = g.header()
-        out["prop"] = props[0]
-        OBS_PAIR[props[0]](g, gB, props[3], out)
+        out = observe(lambda o: OBS_PAIR[props[0]](g, gB, props[3], o), g.header(), props[0], [g, gB])
         with open(props[4], "w") as fh:
             json.dump(out, fh)
         return
 
     for p in props:
-        out = g.header()
-        out["prop"] = p
-        OBS[p](g, out)
+        g.missing = set()
+        out = observe(lambda o: OBS[p](g, o), g.header(), p, [g])
         with open(os.path.join(d, "gt_%s.json" % p), "w") as fh:
             json.dump(out, fh)
 
